@@ -1258,6 +1258,10 @@ func (m *manager) DepositAccount(ctx context.Context,
 	}
 
 	newAccountValue := account.Value + depositAmount
+	if newAccountValue < MinAccountValue {
+		return nil, nil, fmt.Errorf("new account value is below "+
+			"accepted minimum of %v", MinAccountValue)
+	}
 	if newAccountValue > terms.MaxAccountValue {
 		return nil, nil, fmt.Errorf("new account value is above "+
 			"accepted maximum of %v", terms.MaxAccountValue)
